@@ -239,3 +239,89 @@ def run(ctx: Context) -> None:  # noqa: F811
                        f"`{ast.unparse(lp.test)}` is reachable with {new} = 0: the reader task then waits for every permit, its own stream's included, while holding the read lock - "
                        "no stream on the connection can make progress any more, not even after the peer raises the limit again")
     rep.floor("C12.R11", "permit-withdrawing loops (both trees)", n, 2)
+
+
+
+def read_recheck(ctx: Context, rule: str, why: str) -> None:
+    """Double-checked read of the shared socket.  A task that wants an event of stream S tests its queue, then waits for the read lock; the reader ahead of it may
+    have queued S's events meanwhile.  Necessary condition for progress against a server that has answered everything: inside the read-lock region the network read
+    is reached only if S's queue is (still) empty - or no stream was named (flow-control wait) - and that test is evaluated after the lock was taken."""
+    rep = ctx.rep
+    rep.rule(rule, "HTTP/2 shared read: inside the read lock the network read is guarded by a fresh emptiness test of the caller's own event queue (or by `no stream named`) - " + why)
+    n = 0
+    for tree, N in trees(ctx):
+        h2 = N.cls("http2", "AsyncHTTP2Connection")
+        f = h2.methods.get("_receive_events")
+        if f is None:
+            continue
+        params = [a.arg for a in f.node.args.args]
+        sid = "stream_id" if "stream_id" in params else None
+        reads = [c for c in own_nodes(f.node) if isinstance(c, ast.Call) and norm(c.func) == "self._read_incoming_data"]
+        for c in reads:
+            n += 1
+            locks = [w for w, i in enclosing_withs_(c) if "_read_lock" in norm(i.context_expr)]
+            if not locks or sid is None:
+                rep.ob(rule, fkey(tree, f, "read-under-lock"), False, where(f, c), "the network read is not inside the read lock / the routine takes no stream id")
+                continue
+            lock = locks[0]
+            inside = {id(x) for x in ast.walk(lock)}
+            gs = [(t, pol) for t, pol in guards_of(c) if id(getattr(t, "_orig", t)) in inside]
+            # every local the tests read is bound inside the lock region (a value computed before the wait for the lock is stale)
+            stale = []
+            for t, _ in gs:
+                for x in ast.walk(t):
+                    if isinstance(x, ast.Name) and x.id not in ("self", sid) and x.id in {y.id for y in own_nodes(f.node) if isinstance(y, ast.Name) and isinstance(y.ctx, ast.Store)}:
+                        defs = [y for y in own_nodes(f.node) if isinstance(y, ast.Name) and isinstance(y.ctx, ast.Store) and y.id == x.id]
+                        if any(id(d) not in inside for d in defs):
+                            stale.append(x.id)
+
+            def reached(env: dict) -> object:
+                res: object = True
+                for t, pol in gs:
+                    if getattr(t, "_orig", None) is not None and any(t2 is t._orig for t2, _ in gs):  # type: ignore[attr-defined]
+                        pass            # expanded twin of a raw guard: both are evaluated, they agree by construction
+                    v = peval(t, env)
+                    if v is UNKNOWN:
+                        res = UNKNOWN if res is True else res
+                    elif bool(v) != pol:
+                        return False
+                return res
+            q = lambda v: {sid: 1, f"self._events.get({sid})": v, f"self._events[{sid}]": v, f"{sid}inself._events": True, f"len(self._events.get({sid}))": len(v or ()), f"len(self._events[{sid}])": len(v or ())}  # noqa: E731
+            pending, empty, unnamed = reached(q(["ev"])), reached(q([])), reached({sid: None, f"self._events.get({sid})": None})
+            # other tests on the way (GOAWAY seen ...) may restrict the read further: only the queue test is judged
+            ok = pending is False and empty is not False and unnamed is not False and not stale
+            rep.ob(rule, fkey(tree, f, "read-recheck"), ok, where(f, c),
+                   "inside the read lock the socket is read only while the caller's own queue is empty, or when no stream is named" if ok else
+                   f"network read reached with events pending for the caller's stream: {pending}; with an empty queue: {empty}; with no stream named: {unnamed}"
+                   + (f"; test uses {sorted(set(stale))} computed before the lock was taken" if stale else "")
+                   + " - a task that waited for the read lock while the previous reader queued its complete response reads again from a server that has nothing more to send, and blocks forever")
+    rep.floor(rule, "network reads of the shared HTTP/2 socket (both trees)", n, 2)
+
+
+def enclosing_withs_(node: ast.AST):
+    from ..guards import enclosing_withs
+    return enclosing_withs(node)
+
+
+_core_run_r12 = run
+
+
+def run(ctx: Context) -> None:  # noqa: F811
+    _core_run_r12(ctx)
+    read_recheck(ctx, "C12.R12", "every other stream still runs to completion for any timing of completions: a stream whose frames arrived in another task's read is not left waiting for a read of its own")
+
+
+
+_core_run_r13 = run
+
+
+def run(ctx: Context) -> None:  # noqa: F811
+    _core_run_r13(ctx)
+    if ctx.rep._borrow is not None:
+        return          # already running as a lender: no chains
+    from . import c05
+
+    with ctx.rep.borrow({"C05.R5": ("C12.R13", "the number of concurrently open streams never exceeds the advertised limit: a stream's slot permit is given back exactly once - a response "
+                                                "closed twice (the body iterator's own failure handler, then the caller / pool) would add a surplus permit and let limit + 1 streams open:",
+                                    lambda key, detail: "HTTP2ConnectionByteStream" in key and "close-once" in key)}):
+        c05.run(ctx)
